@@ -114,6 +114,11 @@ class UniformShapeOperations(OperationsBlock):
     def permute_dims(self, x, axes):
         return x._transmute(lambda corearray: opx.transpose(corearray, perm=axes))
 
+    def matrix_transpose(self, x):
+        return self.permute_dims(
+            x, list(range(x.ndim - 2)) + [x.ndim - 1, x.ndim - 2]
+        )
+
     def reshape(self, x, shape, *, copy=None):
         if (
             isinstance(shape, (list, tuple))
